@@ -30,5 +30,9 @@ Example C04_ex_empty_method : parse_request (bs " / HTTP/1.1" ++ [x0d;x0a;x0d;x0
 Proof. vm_compute. reflexivity. Qed.
 Example C04_ex_empty_name : parse_request (bs "GET / HTTP/1.1" ++ [x0d;x0a] ++ bs ": v" ++ [x0d;x0a;x0d;x0a]) = Err EHeader.
 Proof. vm_compute. reflexivity. Qed.
-Example C04_ex_strict : exists sh n, strict_head (bs "GET /a?b HTTP/1.0" ++ [x0d;x0a] ++ bs "K:  v " ++ [x0d;x0a;x0d;x0a] ++ bs "body") = Some (sh, n) /\ n = 30%nat.
-Proof. eexists. eexists. vm_compute. split; reflexivity. Qed.
+Example C04_ex_strict :
+  match strict_head (bs "GET /a?b HTTP/1.0" ++ [x0d;x0a] ++ bs "K:  v " ++ [x0d;x0a;x0d;x0a] ++ bs "body") with
+  | Some (sh, n) => Nat.eqb n 29 && bytes_eqb (s_target sh) (bs "/a?b") && Nat.eqb (length (s_fields sh)) 1
+  | None => false
+  end = true.
+Proof. vm_compute. reflexivity. Qed.
